@@ -249,6 +249,8 @@ fn own_errors(ctx: &mut Ctx) {
         (vec!["-s".into(), "30".into(), "--replace".into(), "cmd".into(), "{}{}".into()], "aaaaaaaaaaaaaaaa\n", "line too long after substitution (--replace)"),
         (vec!["--max-chars=30".into(), "--replace=R".into(), "cmd".into(), "RR".into()], "aaaaaaaaaaaaaaaa\n", "line too long after substitution (--replace=R)"),
         (vec!["-i".into(), "-s".into(), "30".into(), "cmd".into(), "{}".into(), "{}".into()], "b\naaaaaaaaaaaaaaaa\n", "line too long after substitution into two arguments (-i), after an earlier line"),
+        (vec!["-s".into(), "16".into(), "cmd".into()], "\u{e9}\u{e9}\u{e9}\u{e9}\u{e9}\u{e9}\n", "argument too long for -s in bytes though not in characters (six 2-byte characters, -s 16)"),
+        (vec!["-s".into(), "16".into(), "-n1".into(), "cmd".into()], "a\n\u{20ac}\u{20ac}\u{20ac}\u{20ac}\n", "argument too long for -s in bytes though not in characters (four 3-byte characters), after an earlier command line"),
         // the same errors after earlier command lines have been run
         (vec!["-s".into(), "30".into(), "-n1".into(), "cmd".into()], "a\nb\naaaaaaaaaaaaaaaaaaaaaaaaaaaaa\n", "argument too long for -s, after two command lines were run"),
         (vec!["-s".into(), "30".into(), "cmd".into()], "aaaaaaaaaaaaaaaaaaaa bbbbbbbbbbbbbbbbbbbb\naaaaaaaaaaaaaaaaaaaaaaaaaaaaa\n", "argument too long for -s, after the limit closed earlier command lines"),
@@ -260,17 +262,21 @@ fn own_errors(ctx: &mut Ctx) {
         let mut av: Vec<String> = vec!["-a".into(), f.clone()];
         av.extend(opts);
         let args: Vec<&str> = av.iter().map(|s| s.as_str()).collect();
-        let got = run_xargs(&args, &mut |_, _| Outcome::Exit(0));
-        ctx.rep.evaluations += 1;
-        ctx.rep.nontrivial += 1;
-        ctx.rep.count("own_error_cases", 1);
-        let bad = match &got.code {
-            Err(p) => Some(format!("panicked: {p}")),
-            Ok(1) if !got.err.is_empty() => None,
-            Ok(c) => Some(format!("status {c}, stderr {:?}", String::from_utf8_lossy(&got.err))),
-        };
-        if let Some(b) = bad {
-            ctx.rep.violation(&format!("C19 own error not reported with exit status 1: {what}"), format!("xargs {:?} < {:?}: {b}", args, input), json!({"prop":"C19","own":what}));
+        // (also when the first command line run before the error exited 3: the error is still xargs' own)
+        for first in [Outcome::Exit(0), Outcome::Exit(3)] {
+            let got = run_xargs(&args, &mut |k, _| if k == 0 { first } else { Outcome::Exit(0) });
+            ctx.rep.evaluations += 1;
+            ctx.rep.nontrivial += 1;
+            ctx.rep.count("own_error_cases", 1);
+            let bad = match &got.code {
+                Err(p) => Some(format!("panicked: {p}")),
+                Ok(1) if !got.err.is_empty() => None,
+                Ok(c) => Some(format!("status {c}, stderr {:?}", String::from_utf8_lossy(&got.err))),
+            };
+            if let Some(b) = bad {
+                let after = if first == Outcome::Exit(0) { "" } else { " (an earlier command line exited 3)" };
+                ctx.rep.violation(&format!("C19 own error not reported with exit status 1{after}: {what}"), format!("xargs {:?} < {:?}: {b}", args, input), json!({"prop":"C19","own":what}));
+            }
         }
     }
 }
